@@ -91,8 +91,16 @@ def run(prop, tier, seed, rep):
     # reference programs
     ref = hx_reader(hx, [{"bytes": list(b), "script": [], "tag": name} for name, b in sh])
     progs = []
+    outside = []
     for (name, b), e in zip(sh, ref):
-        ops = merge(e["calls"])
+        try:
+            ops = merge(e["calls"])
+        except core.ToolError as x:
+            # what the program under test does is data: a decode whose calls are not in the model's alphabet (relative
+            # seek-backs and whole reads) is left out of the model and said so; its effects are judged on the recordings
+            outside.append((name, str(x)))
+            progs.append(None); progs.append(None)
+            continue
         df = b[0] >> 3
         flen = gen.flen(df)
         # DF19 and DF20 keep no parity field in their struct: their last read is read_crc pulling the rest of
@@ -101,6 +109,17 @@ def run(prop, tier, seed, rep):
             ops = ops[:-1]
         progs.append({"name": name, "prog": ops, "len": flen, "flen": flen})
         progs.append({"name": name + "+tail", "prog": ops, "len": flen + 3, "flen": flen})
+    for name, x in outside[:5]:
+        print(f"MODEL-DRIFT: the reference decode of {name} is outside the reader model: {x}")
+    rep.extra["reference_programs_outside_the_model"] = len(outside)
+    # (keep positions: the model names programs by index)
+    filler = next((p for p in progs if p is not None), None)
+    if filler is None:
+        raise_later = True
+        progs = []
+    else:
+        raise_later = False
+        progs = [p if p is not None else dict(filler, name="(left out)") for p in progs]
     work = os.path.join(core.BUILD, "work", "reader")
     os.makedirs(work, exist_ok=True)
     ppath = os.path.join(work, "progs.ndjson")
@@ -108,12 +127,16 @@ def run(prop, tier, seed, rep):
         for p in progs:
             f.write(json.dumps({k: p[k] for k in ("prog", "len", "flen")}) + "\n")
     envs = {"PROGS": ppath, "WRAPPER": "position", "MAXEINTR": "1" if tier == "quick" else "2", "MAXSHORT": "1" if tier == "quick" else "2"}
-    res = core.run_mc("MC_Reader", workers=8, timeout=3000, cache=False, env_extra=envs)
+    if raise_later:
+        # no decode at all fits the model: nothing to model-check, the recordings below still speak
+        res = {"ok": True, "tuples": [], "states": 0, "transitions": 0, "violated": [], "wall_s": 0, "output_tail": ""}
+    else:
+        res = core.run_mc("MC_Reader", workers=8, timeout=3000, cache=False, env_extra=envs)
     rep.add_model(res, "MC_Reader(position wrapper)")
     if not res["ok"]:
         # Level A fails on the model of the current code: report with the counterexample behaviour
         rep.mismatch("C19", "reader|model", "window", {"kind": "model", "violated": res["violated"], "tail": res["output_tail"][-800:]})
-    if tier == "thorough":
+    if tier == "thorough" and not raise_later:
         # anti-vacuity: the original flag wrapper must violate WindowCorrect in the same bounded model
         envs2 = dict(envs, WRAPPER="flag")
         r2 = core.run_mc("MC_Reader", workers=8, timeout=3000, cache=False, env_extra=envs2)
@@ -200,7 +223,7 @@ def run(prop, tier, seed, rep):
     rep.extra.update({"program_shapes": [n for n, _ in sh], "model_schedules_replayed": nsched, "random_schedules": len(events) - nsched,
                       "decodes_with_interrupted_error": interrupted, "decodes_with_short_read": shortr,
                       "model_drift": len(core.LAST_INFOS)})
-    rep.samples = [{"program": progs[6]["name"], "ops": progs[6]["prog"]},
-                   {k: events[0][k] for k in ("bytes", "script", "calls", "outcome")}]
+    rep.samples = ([{"program": progs[6]["name"], "ops": progs[6]["prog"]}] if len(progs) > 6 else []) + \
+                  [{k: events[0][k] for k in ("bytes", "script", "calls", "outcome")}]
     rep.assumptions += ["read/seek programs are taken from reference runs of the real decoder (one per frame shape); the model covers the inner reader, the retry loops and the caching wrapper",
                         "the last read of DF19/DF20 reference runs is attributed to read_crc"]
